@@ -25,7 +25,7 @@ ADec(key, cs) == LET p == IF IsCipherOf(key, cs) THEN cs[1].v[2]
                           ELSE SubSeq([j \in 1..Len(cs) |-> [k |-> "g", v |-> <<key, cs, j>>]], 1, Len(cs))
                  IN IF DEC_STRIPS_ZEROS THEN AStrip(p, Len(p)) ELSE p
 L == INSTANCE Bf3Layout WITH W_ADR <- 1, W_LEN <- 1, W_MAC <- 1, BLK <- ABLK, Base <- HugeA, Huge <- HugeA,
-        Cell <- ICell, Val <- AVal, Mac <- AMac, Enc <- AEnc, Dec <- ADec, ENC_TAG <- 2, ENC_SESSION <- <<ICell(2)>>
+        Cell <- ICell, Val <- AVal, Mac <- AMac, Enc <- AEnc, Dec <- ADec, ENC_TAG <- 2, ENC_SESSION <- <<ICell(2)>>, KeyA <- 0, KeyB <- 1, GarbageCell <- [k |-> "g", v |-> <<0, <<>>, 0>>]
 SigCell == ICell(66)
 \* a whole file: one signature cell, then the container at offset 1
 WriteFile(comps, key) == <<SigCell>> \o L!Serialize(comps, 1, key)
